@@ -157,13 +157,24 @@ pub fn run_case(rep: &mut Report, case: &Case, verbose: bool) {
                 let from_parent = matches!(ev, E::S(_));
                 let t2 = clock_now + rng.gen_range(0..(1u128 << 34));
                 let ex = &mut exs[k];
-                let src = if from_parent { &parent.src } else { &other.src };
+                // the "other master" is either another identity or the parent's own port serving
+                // another domain / sdoId with the same sequence ids
+                let foreign_domain = !from_parent && rng.gen_bool(0.5);
+                let src = if from_parent || foreign_domain { &parent.src } else { &other.src };
                 let (corr, origin) = if from_parent {
                     (ex.corr_s, if ex.two_step { Ts::default() } else { ex.t1 })
                 } else {
                     (rng.gen_range(0..(1i64 << 30)), units_to_ts(clock_now / 2))
                 };
-                let m = src.sync(ex.seq, ex.two_step, origin, corr);
+                let mut m = src.sync(ex.seq, ex.two_step, origin, corr);
+                if foreign_domain {
+                    rep.ev("message_of_the_parent_port_in_another_domain");
+                    if rng.gen_bool(0.5) {
+                        m.hdr.domain = m.hdr.domain.wrapping_add(1 + rng.gen_range(0..200));
+                    } else {
+                        m.hdr.minor_sdo = m.hdr.minor_sdo.wrapping_add(1);
+                    }
+                }
                 if from_parent {
                     ex.sync_deliveries.push(t2);
                 }
@@ -177,8 +188,9 @@ pub fn run_case(rep: &mut Report, case: &Case, verbose: bool) {
                     // a Follow_Up for a one-step exchange does not exist; deliver nothing
                     continue;
                 }
-                let src = if from_parent { &parent.src } else { &other.src };
-                let m = if !ex.two_step && from_parent {
+                let foreign_domain = !from_parent && rng.gen_bool(0.5);
+                let src = if from_parent || foreign_domain { &parent.src } else { &other.src };
+                let mut m = if !ex.two_step && from_parent {
                     rep.ev("stray_follow_up_for_one_step_sync");
                     let stray = ex.t1.to_units() + SEC / 1000 + rng.gen_range(0..(1u128 << 44));
                     src.follow_up(ex.seq, units_to_ts(stray), rand_corr(&mut rng, false))
@@ -188,6 +200,10 @@ pub fn run_case(rep: &mut Report, case: &Case, verbose: bool) {
                 } else {
                     src.follow_up(ex.seq, units_to_ts(clock_now / 3), rng.gen_range(0..(1i64 << 30)))
                 };
+                if foreign_domain {
+                    rep.ev("message_of_the_parent_port_in_another_domain");
+                    m.hdr.domain = m.hdr.domain.wrapping_add(1 + rng.gen_range(0..200));
+                }
                 Call::GeneralRx(m.encode())
             }
             E::T => Call::DelayRequestTimer,
@@ -219,7 +235,14 @@ pub fn run_case(rep: &mut Report, case: &Case, verbose: bool) {
             }
             E::RQ => {
                 let Some(d) = dxs.last() else { continue };
-                Call::GeneralRx(other.src.delay_resp(d.seq, units_to_ts(clock_now / 5), own, 17).encode())
+                if rng.gen_bool(0.5) {
+                    let mut m = parent.src.delay_resp(d.seq, units_to_ts(clock_now / 5), own, 17);
+                    m.hdr.domain = m.hdr.domain.wrapping_add(1 + rng.gen_range(0..200));
+                    rep.ev("message_of_the_parent_port_in_another_domain");
+                    Call::GeneralRx(m.encode())
+                } else {
+                    Call::GeneralRx(other.src.delay_resp(d.seq, units_to_ts(clock_now / 5), own, 17).encode())
+                }
             }
             E::RO => {
                 let Some(d) = dxs.last() else { continue };
@@ -745,7 +768,7 @@ fn full_alphabet() -> Vec<E> {
 
 pub fn run(rep: &mut Report, tier: &str, seed: u64, shard: (u32, u32), replay: Option<&str>) {
     rep.rule = "event scripts over the messages of three Sync exchanges (two-step / one-step / mixed) and Delay_Req exchanges of a slave port: every sequence up to a length bound over the six Sync/Follow_Up messages is enumerated, delay events, foreign-master copies, late/duplicate/other-requester responses are interleaved by seeded sampling; unique random timestamps and corrections per exchange; distinct = distinct (script, parameters); non-trivial = at least one measurement reached the filter".into();
-    rep.require(&["sync_measurement", "delay_measurement", "stray_follow_up_for_one_step_sync", "parent_port_switch", "second_slave_phase", "late_sync_timestamp_with_the_sequence_id_of_the_outstanding_delay_req"]);
+    rep.require(&["sync_measurement", "delay_measurement", "stray_follow_up_for_one_step_sync", "parent_port_switch", "second_slave_phase", "late_sync_timestamp_with_the_sequence_id_of_the_outstanding_delay_req", "message_of_the_parent_port_in_another_domain"]);
     if let Some(path) = replay {
         let v: serde_json::Value = serde_json::from_str(&std::fs::read_to_string(path).unwrap()).unwrap();
         if let Ok(c) = serde_json::from_value::<Case>(v["case"].clone()) {
